@@ -323,18 +323,27 @@ def main(argv):
                 jobs.append((field, "file", b_, False, None, exp_off))
                 jobs.append((field, "flag", b_, None, True, 2.0 if fmt_.startswith("cff2") else (lambda o: o in (2.0, 3.0))))
     if tier == "quick":
+        # not a random sample: every field by file AND by flag (a falsy value among them where the field has one), one
+        # "both" job per three fields, every OT-SVG transform job, some re-runs, the charstring flavours
         rng.shuffle(jobs)
-        # every field at least once, 24 builds
-        seen, pick = set(), []
-        for j in jobs:
-            if j[0] not in seen:
-                seen.add(j[0])
-                pick.append(j)
-        reruns = [j for j in jobs if len(j) > 6 and j not in pick]
-        cffs = [j for j in jobs if j[0] == "keep_glyph_names" and "output_file" in j[2] and j not in pick]
-        pick += reruns[:3] + cffs[:2]
-        pick += [j for j in jobs if j not in pick][: max(0, 30 - len(pick))]
-        jobs = pick
+        plain = [j for j in jobs if len(j) == 6 and not j[2].get("_two_masters") and "output_file" not in j[2]]
+        pick = []
+        for k, field in enumerate(fields):
+            fj = [j for j in plain if j[0] == field]
+            for mode in ("file", "flag"):
+                mj = [j for j in fj if j[1] == mode]
+                falsy = [j for j in mj if (j[3] if mode == "file" else j[4]) in (0, False, 0.0)]
+                pick += (falsy or mj)[:1]
+                if falsy and len(mj) > len(falsy) and k % 2 == 0:
+                    pick += [j for j in mj if j not in falsy][:1]
+            if k % 3 == 0:
+                pick += [j for j in fj if j[1] == "both"][:1]
+        pick += [j for j in plain if j[0] == "transform" and j[2].get("color_format") in ("picosvg", "untouchedsvg") and j not in pick]
+        reruns = [j for j in jobs if len(j) > 6]
+        cffs = [j for j in jobs if j[0] == "keep_glyph_names" and "output_file" in j[2]]
+        vfs = [j for j in jobs if j[2].get("_two_masters")]
+        pick += reruns[:3] + cffs[:2] + [j for j in vfs if j[0] == "keep_glyph_names"][:2] + [j for j in vfs if j[0] != "keep_glyph_names"][:1]
+        jobs = [j for n_, j in enumerate(pick) if j not in pick[:n_]]
     with ThreadPoolExecutor(max_workers=12) as ex:
         results = list(ex.map(run_job, jobs))
     for i, (res, expect) in enumerate(results):
